@@ -5,6 +5,7 @@ line `{"engine": ..., ...}`, one response per output line: `{"ok": {...}}` or
 -/
 import ZenoModel.Driver.SeqEngine
 import ZenoModel.Driver.StoreEngine
+import ZenoModel.Driver.ReportEngine
 import ZenoModel.Driver.RobustEngine
 import ZenoModel.Driver.HeapEngine
 import ZenoModel.Driver.PlanEngine
@@ -21,6 +22,7 @@ def dispatch (j : Json) : R Json := do
   match (← str j "engine") with
   | "seq" => seqEngine j
   | "store" => storeEngine j
+  | "report" => reportEngine j
   | "robust" => robustEngine j
   | "heap" => heapEngine j
   | "plan" => planEngine j
